@@ -61,6 +61,22 @@ fn pure_guess_case(cases: &[PureCase], c: &(usize, f64), rec: &mut Rec) {
             Err(_) => rec.skip("pure with initial state fails (conditional)"),
         }
     }
+    // initial states from the near-critical region, several times closer to T_c than the requested temperature (the iteration
+    // then starts from two nearly identical phases and may converge with the phases exchanged)
+    for k in [0.25, 0.5] {
+        let tr_init = 1.0 - (1.0 - c.1) * k;
+        if tr_init > 0.996 {
+            continue;
+        }
+        let Ok(init) = PhaseEquilibrium::pure(&eos, cp.temperature * tr_init, None, Default::default()) else { continue };
+        match PhaseEquilibrium::pure(&eos, t, Some(&init), Default::default()) {
+            Ok(g) => {
+                rec.check("pure_guess", &format!("init_closer_to_Tc={k}"), vle_distance(&g, &base) / BAND, true, || format!("with the equilibrium at T_r = {tr_init:.4} as initial state the result differs by {:e}", vle_distance(&g, &base)));
+                rec.require("pure_guess", &format!("init_closer_to_Tc={k}|rho_v<rho_l"), g.vapor().density < g.liquid().density, || format!("warm start from T_r = {tr_init:.4}: vapor() has density {}, liquid() {}", g.vapor().density, g.liquid().density));
+            }
+            Err(_) => rec.skip("pure with initial state fails (conditional)"),
+        }
+    }
     for f in [0.7, 0.9, 1.1, 1.3] {
         if c.1 * f >= 0.995 || c.1 * f < pc.tr_min {
             continue;
